@@ -105,6 +105,6 @@ CheckPacket(st, pktOff, r, payload, cfg) ==
        st1 == [st EXCEPT !.firstVer = fv, !.run = IF cfg.running THEN RunNext(st.run, r) ELSE st.run]
    IN IF ~cfg.its \/ payload = << >> THEN [st |-> st1, errs |-> sane \o runE]
       ELSE IF PadErr(payload) THEN [st |-> [st1 EXCEPT !.fsm = InitState], errs |-> sane \o runE \o E(pktOff, "PAYLOAD")]
-      ELSE LET res == CheckWords(st1, r, cfg.running, TRUE, Cut(payload), 1, pktOff)
+      ELSE LET res == CheckWords(st1, r, cfg.running, TRUE, Cut(DataFormat(r), payload), 1, pktOff)
            IN [st |-> res.st, errs |-> sane \o runE \o res.errs]
 =============================================================================
